@@ -29,7 +29,7 @@ TOOLS = os.path.join(VERIF, "tools")
 REPO = os.environ.get("CHARTPARSE_REPO", "/repo")
 WORK = os.path.join(VERIF, "work")
 REPLAYS = os.path.join(WORK, "replays")
-EVID = os.path.join(VERIF, "evidence")
+EVID = os.environ.get("VERIF_EVIDENCE_DIR") or os.path.join(VERIF, "evidence")
 LOCK = os.path.join(VERIF, ".lock")
 PY = "/venv/bin/python"
 
